@@ -629,9 +629,79 @@ def work_dup(shard):
     return part
 
 
+# ---------------------------------------------------------------------------
+# a function that calls another one, with a garbage collection while both calls are in progress: the saved values of
+# the caller's variables belong to each call separately
+
+NG_INNER = [('FNI$(Y$)', 'Y$+"!"', 'FNI$("in")', 'in!'), ('FNI$(X$)', 'X$+"!"', 'FNI$("in")', 'in!'),
+            ('FNI$(Q)', 'STRING$(Q,"i")', 'FNI$(2)', 'ii'), ('FNI$(X$)', 'X$+"!"', 'FNI$(X$)', None)]
+NG_GC = ['none', 'before-inner', 'after-inner', 'both']
+
+
+def nestedgc_cases():
+    return [{'inner': i, 'gc': g, 'mode': m} for i in range(len(NG_INNER)) for g in NG_GC for m in ('prog', 'direct')]
+
+
+def judge_nestedgc(part, case):
+    head, ibody, icall, ival = NG_INNER[case['inner']]
+    gc = 'LEFT$(STR$(FRE("")),0)'
+    pieces = []
+    if case['gc'] in ('before-inner', 'both'):
+        pieces.append(gc)
+    pieces.append(icall)
+    if case['gc'] in ('after-inner', 'both'):
+        pieces.append(gc)
+    pieces.append('X$')
+    obody = '+'.join(pieces)
+    expect_r = (ival if ival is not None else 'arg!') + 'arg'
+    s = H.new_session()
+    try:
+        lines = ['10 DEF %s=%s:DEF FNO$(X$)=%s' % (head, ibody, obody),
+                 '20 X$="ca"+"ller":Y$="wh"+"yy":Q=7:G$="gl"+"ob"']
+        show = 'R$=FNO$("a"+"rg"):PRINT "<";R$;">[";X$;"][";Y$;"][";Q;"][";G$;"]";'
+        for l in lines:
+            r = H.run(s, l.encode('ascii'))
+            if r.exc is not None or r.out.strip():
+                raise CheckError('line not accepted: %r -> %r' % (l, r))
+        if case['mode'] == 'prog':
+            H.run(s, ('30 ' + show).encode('ascii'))
+        r = H.run(s, b'RUN')
+        out = r.out
+        if case['mode'] == 'direct' and r.exc is None and r.err is None:
+            r = H.run(s, show.encode('ascii'))
+            out += r.out
+        part.n += 1
+        part.traces += 1
+        if r.exc is not None:
+            part.violation('nested-gc/host-exception/%s' % H.exc_key(r.exc), 'DEF %s=%s:DEF FNO$(X$)=%s / %s raised %r' % (
+                head, ibody, obody, show, r.exc), case)
+            return
+        got = out.decode('latin-1').replace('\r', '').replace('\n', '').replace(' ', '')
+        want = '<%s>[caller][whyy][7][glob]' % expect_r
+        if r.err is not None or got != want:
+            what = 'caller-variable-changed' if ('<%s>' % expect_r) in got else 'wrong-value'
+            part.violation('nested-gc/%s' % what, '10 DEF %s=%s:DEF FNO$(X$)=%s / %s / %s printed %r (error %r), expected %r' % (
+                head, ibody, obody, lines[1][3:], show, got, r.err, want), case)
+        part.classes.add('nested-gc/%s/%s/%s' % (head, case['gc'], case['mode']))
+    finally:
+        s.close()
+
+
+def work_nestedgc(shard):
+    part = Partial()
+    for case in shard:
+        judge_nestedgc(part, case)
+    part.sample(shard[0])
+    return part
+
+
 def legs(ctx):
     dt = list(deftype_cases(2 if ctx.quick else 4))
     return _legs_calls(ctx) + [
+        Leg('nested-gc', list(chunked(nestedgc_cases(), 8)), work_nestedgc, exhaustive=True,
+            bound='%d programs: a string function whose body calls a second function (parameter of another name, of the same name, '
+                  'numeric, or passed on) with a garbage collection before / after / around the inner call, from a program and from '
+                  'direct mode: the value and the caller\'s variables afterwards' % len(nestedgc_cases())),
         Leg('dup-params', list(chunked(dup_cases(), 6)), work_dup, exhaustive=True,
             bound='%d programs: a function whose parameter list names one variable twice (same spelling, explicit sigil against '
                   'default type, under DEFINT / DEFSTR, with another parameter in between), called plainly and with a call of '
@@ -661,6 +731,9 @@ def replay(ctx, leg, case):
         return part
     if leg == 'dup-params':
         judge_dup(part, case)
+        return part
+    if leg == 'nested-gc':
+        judge_nestedgc(part, case)
         return part
     box = Box()
     params = tuple(case['params'])
